@@ -66,6 +66,12 @@ def _case(draw):
             # was diagonalised (Aggregate.diagonalize) before the calculator got it
             "ground": [draw(st.integers(0, 400)) for _ in range(n)] if draw(st.sampled_from([False, False, True])) else None,
             "diagonalized_before": draw(st.sampled_from([False, False, True])),
+            # the aggregate is built with its two-exciton band (no change of the linear spectrum); the energy-gap
+            # fluctuations of all sites are fully correlated (one bath function for every pair of sites, given as a
+            # correlation function matrix); the effective-lineshape calculator with and without frequency prefactor
+            "mult": draw(st.sampled_from([1, 1, 2])),
+            "correlated": draw(st.sampled_from([False, False, True])) if n >= 2 else False,
+            "mock": draw(st.sampled_from([False, False, True])) if n >= 2 else False,
             "quat": list(q), "perm": list(draw(st.permutations(list(range(n))))),
             "tensor": draw(st.booleans()) if n >= 2 else False}
 
@@ -92,10 +98,10 @@ def split_spec(spec, split):
 
 
 def run_calc(qr, spec, molecule=False, tensor=False, fingerprint=False, split=None, rebootstrap=False, repeat=False,
-             diagonalized=False):
+             diagonalized=False, mult=1):
     t0, nt, dt = spec["time"]
     ta = qr.TimeAxis(t0, int(nt), dt)
-    agg = gens.make_aggregate(qr, spec, build=not molecule)
+    agg = gens.make_aggregate(qr, spec, build=not molecule, mult=mult)
     if diagonalized and not molecule:
         agg.diagonalize()
     extra = {}
@@ -121,7 +127,7 @@ def run_calc(qr, spec, molecule=False, tensor=False, fingerprint=False, split=No
                 agg.get_Hamiltonian().remove_cutoff_coupling(float(split))
         if rebootstrap:
             # the calculator was set up for another realisation of the system (all site energies 300 1/cm higher) first
-            other = gens.make_aggregate(qr, dict(spec, E=[e + 300 for e in spec["E"]]))
+            other = gens.make_aggregate(qr, dict(spec, E=[e + 300 for e in spec["E"]]), mult=mult)
             calc = qr.AbsSpectrumCalculator(ta, system=other, **kw)
             calc.bootstrap()
             calc.system = agg
@@ -176,10 +182,20 @@ def check_case(case, ctx):
         spec = dict(spec, ground=case["ground"])
         ctx.label("ground-energies!=0")
     diag_before = bool(case.get("diagonalized_before")) and not molecule
+    mult = 2 if (case.get("mult") == 2 and not molecule and not tensor and n >= 2) else 1
+    if mult == 2:
+        ctx.label("built-with-two-exciton-band")
+        tag = tag + "/mult2"
+    correlated = bool(case.get("correlated")) and not molecule and not tensor and n >= 2
+    if correlated:
+        spec = dict(spec, correlated=True, bath=[spec["bath"][0]] * n)
+        ctx.label("correlated-baths")
+        tag = tag + "/correlated"
     if diag_before:
         ctx.label("aggregate-diagonalized-before")
     ok, r = guarded(ctx, "calculate", lambda: run_calc(qr, spec, molecule, tensor, fingerprint=True, split=split,
-                                                       rebootstrap=reboot, repeat=True, diagonalized=diag_before), tag)
+                                                       rebootstrap=reboot, repeat=True, diagonalized=diag_before,
+                                                       mult=mult), tag)
     if not ok:
         return
     w, S, extra = r
@@ -215,11 +231,15 @@ def check_case(case, ctx):
         for al in range(n):
             dal = C[:, al] @ d
             g = sum((C[s, al] ** 4) * gs[s] for s in range(n))
+            dg_al = sum((C[s, al] ** 4) * dgs[s] for s in range(n))
+            if correlated:
+                # sum_kl |c_k|^2 |c_l|^2 C(t) = C(t): no exchange narrowing
+                g, dg_al = gs[0], dgs[0]
             expo = -g - 1j * (ev[al] - Om) * t
             if tensor:
                 expo = expo + extra["Rdiag"][al + 1] * t
             a += float(dal @ dal) * numpy.exp(expo)
-            aabs_dg += float(dal @ dal) * numpy.abs(numpy.exp(expo)) * sum((C[s, al] ** 4) * dgs[s] for s in range(n))
+            aabs_dg += float(dal @ dal) * numpy.abs(numpy.exp(expo)) * dg_al
     ref = 2.0 * numpy.real(numpy.exp(1j * numpy.outer(w - Om, t)) @ a) * dt - numpy.real(a[0]) * dt
     peak = float(numpy.max(numpy.abs(ref)))
     allowed = 1e-3 * peak + 2.0 * float(numpy.sum(aabs_dg)) * dt
@@ -243,6 +263,32 @@ def check_case(case, ctx):
     coupled = any(spec["J"][i][j] != 0 for i in range(n) for j in range(i + 1, n))
     nonpar = n >= 2 and any(numpy.linalg.norm(numpy.cross(d[0], d[i])) > 1e-9 for i in range(1, n))
     ctx.mark_nontrivial(n >= 2 and coupled and nonpar and fwhm >= 4 * abs(dw))
+
+    if case.get("mock") and not molecule:
+        # the calculator with effective (Gaussian) line shapes: the spectrum asked for without the frequency prefactor
+        # (raw=True) times the frequency is the spectrum with it
+        def mock():
+            agg = gens.make_aggregate(qr, {k: v for k, v in spec.items() if k != "correlated"}, build=False)
+            with qr.energy_units("1/cm"):
+                for i, m in enumerate(agg.monomers):
+                    m.set_transition_width((0, 1), 40.0 + 15.0 * i)
+            agg.build()
+            tm = qr.TimeAxis(0.0, 1000, 2.0)
+            calc = qr.MockAbsSpectrumCalculator(tm, system=agg)
+            calc.bootstrap(rwa=agg.get_RWA_suggestion(), shape="Gaussian")
+            raw = calc.calculate(raw=True)
+            full = calc.calculate()
+            with qr.energy_units("int"):
+                return numpy.array(raw.axis.data), numpy.array(raw.data), numpy.array(full.data)
+        ok, mk = guarded(ctx, "mock-calculator", mock, tag)
+        if ok:
+            wm, rawd, fulld = mk
+            ctx.label("mock-calculator")
+            if float(numpy.max(numpy.abs(rawd))) <= 0.0:
+                ctx.label("mock-calculator:empty-spectrum")
+            else:
+                ctx.close("mock/raw-times-frequency-is-spectrum", numpy.real(rawd) * wm, numpy.real(fulld), rtol=1e-9,
+                          scale=max(1e-300, float(numpy.max(numpy.abs(fulld)))), where=tag)
 
     if "second" in extra:
         ctx.close("repeated-calculation-same-spectrum", extra["second"], S, rtol=1e-9,
